@@ -136,6 +136,10 @@ def gen_axis(rng, nmax, duration_only=False):
     if c > 0.8:
         t0 = -rng.randint(0, n) * dt + rng.choice([0, g])     # straddles zero
     ax = {'unit': u, 't0': t0, 'dt': dt, 'n': n, 'ctor': 'length', 'g': g}
+    if not duration_only and rng.random() < 0.13:
+        # a reversed axis (negative sampling interval), born as HEAD allows: a negative `sampling_interval`,
+        # `axis *= -1`, or `+=` with a descending ramp
+        ax.update(dt=-dt, t0=t0 + rng.choice([0, 0, (n - 1) * dt]), how=rng.choice(['negative-interval', 'imul', 'ramp']))
     if duration_only:
         # duration is not a multiple of the interval: n = ceil(D/dt) samples
         if dt < 2:
@@ -157,7 +161,14 @@ def build_axis(ax):
     """the real UniformTime, or None when its parameters turn out not to be exact in ps"""
     U = ts().UniformTime
     f = FACTOR[ax['unit']]
-    if ax['ctor'] == 'length':
+    how = ax.get('how', 'negative-interval')
+    if ax['ctor'] == 'length' and ax['dt'] < 0 and how == 'imul':
+        a = U(length=ax['n'], sampling_interval=num_arg(-ax['dt'], f), t0=num_arg(-ax['t0'], f), time_unit=ax['unit'])
+        a *= -1
+    elif ax['ctor'] == 'length' and ax['dt'] < 0 and how == 'ramp' and ax['n'] >= 2:
+        a = U(length=ax['n'], sampling_interval=num_arg(-ax['dt'], f), t0=num_arg(ax['t0'], f), time_unit=ax['unit'])
+        a += ts().TimeArray(np.array([2 * i * ax['dt'] for i in range(ax['n'])], dtype=np.int64), time_unit='ps')
+    elif ax['ctor'] == 'length':
         a = U(length=ax['n'], sampling_interval=num_arg(ax['dt'], f), t0=num_arg(ax['t0'], f), time_unit=ax['unit'])
     else:
         a = U(duration=num_arg(ax['D'], f), sampling_interval=num_arg(ax['dt'], f), t0=num_arg(ax['t0'], f), time_unit=ax['unit'])
@@ -388,14 +399,20 @@ def canon_events(ev):
 
 
 # ------------------------------------------------------------------ brute-force expectations (oracle side)
+def in_bin(ax, i, t):
+    """the bin convention, stated explicitly: on a forward axis sample i owns [t_i, t_i + dt); on a reversed axis
+    (dt < 0) it owns (t_i + dt, t_i] — the instants at or before the sample and after the next (earlier) one"""
+    ti = ax['t0'] + i * ax['dt']
+    return ti <= t < ti + ax['dt'] if ax['dt'] > 0 else ti + ax['dt'] < t <= ti
+
+
 def exp_uniform_index(ax, q, sc, end=None):
-    times = [ax['t0'] + i * ax['dt'] for i in range(ax['n'])]
     end = ax['t0'] + ax['n'] * ax['dt'] if end is None else end
     out = []
     for t in q:
-        if not (ax['t0'] <= t < end):
+        if not ((ax['t0'] <= t < end) if ax['dt'] > 0 else (end < t <= ax['t0'])):
             return 'err ValueError', None
-        hit = [i for i in range(ax['n']) if times[i] <= t < times[i] + ax['dt']]
+        hit = [i for i in range(ax['n']) if in_bin(ax, i, t)]
         out.append(hit[0])
     return (('ok i:%d' % out[0]) if sc else 'ok a:' + ilist(out)), out
 
@@ -426,21 +443,119 @@ def exp_tarray_index(tsl, mode, q, tol):
 
 
 # ------------------------------------------------------------------ one case from its description
-def run_case(m):
+def snap(o):
+    """a bit-for-bit description of an argument / container object (hashable, comparable)"""
+    t = ts()
+    if o is None or isinstance(o, (bool, int, float, str)):
+        return (type(o).__name__, repr(o))
+    if isinstance(o, (list, tuple)):
+        return (type(o).__name__,) + tuple(snap(x) for x in o)
+    if isinstance(o, t.Epochs):
+        d = o.__dict__
+        # one-time properties (`duration`) may be computed and cached by a lookup: that is not a change of the
+        # argument; a value cached BEFORE the lookup must still be the same afterwards (see `differs`)
+        return ('Epochs', o.data.dtype.str, o.data.shape, np.asarray(o.data).tobytes(), o.time_unit, snap(o.offset),
+                tuple(sorted(k for k in d if k != 'duration')), ('cache', snap(d['duration']) if 'duration' in d else None))
+    if isinstance(o, t.TimeSeries):
+        d = o.__dict__
+        return ('TimeSeries', snap(np.asarray(o.data)), o.time_unit, snap(o.t0), snap(o.sampling_interval), snap(o.duration),
+                repr(float(o.sampling_rate)), ('cache', snap(d['time']) if 'time' in d else None))
+    if isinstance(o, t.Events):
+        return ('Events', snap(o.time), o.time_unit, tuple((k, snap(o.data[k])) for k in sorted(o.data)))
+    if isinstance(o, np.ndarray):
+        extra = ()
+        if isinstance(o, t.TimeInterface):
+            extra = (getattr(o, 'time_unit', None), getattr(o, '_conversion_factor', None))
+        if isinstance(o, t.UniformTime):
+            extra += tuple(snap(np.asarray(getattr(o, a))) if hasattr(o, a) and a != 'sampling_rate' else repr(float(getattr(o, a, 0.0)))
+                           for a in ('t0', 'sampling_interval', 'duration', 'sampling_rate'))
+        return (type(o).__name__, o.dtype.str, o.shape, np.asarray(o).tobytes()) + extra
+    return (type(o).__name__, repr(o))
+
+
+def differs(before, after):
+    """snapshots differ; a `('cache', None)` entry (one-time property not yet computed) may become computed"""
+    if isinstance(before, tuple) and isinstance(after, tuple):
+        if len(before) == 2 and before[0] == 'cache' and len(after) == 2 and after[0] == 'cache':
+            return before[1] is not None and differs(before[1], after[1])
+        if len(before) != len(after):
+            return True
+        return any(differs(b, a) for b, a in zip(before, after))
+    return before != after
+
+
+class Args:
+    """argument / container objects of one lookup: built once (shared across the steps of a sequence when
+    the description says so), snapshotted before the lookup, compared after it"""
+
+    def __init__(self, m, pool):
+        self.share, self.pool, self.seen = m.get('share') or {}, pool, {}
+
+    def get(self, name, build):
+        key = self.share.get(name)
+        if key is None:
+            o = build()
+        else:
+            if key not in self.pool:
+                self.pool[key] = build()
+            o = self.pool[key]
+        if name not in self.seen:
+            self.seen[name] = (o, snap(o))
+        return o
+
+    def changed(self):
+        return sorted(name for name, (o, before) in self.seen.items() if differs(before, snap(o)))
+
+
+def run_case(m, pool=None):
     """build the real objects from the JSON-able description `m`, run the operation, return the Case
-    (None when the container cannot be built exactly — not C03's business)"""
+    (None when the container cannot be built exactly — not C03's business).  Every argument object and the
+    container are snapshotted around the lookup; `m['mutated']` names those that changed."""
+    if m['op'] == 'seq':
+        return run_seq(m)
+    A = Args(m, {} if pool is None else pool)
+    c = _run_case(m, A)
+    if c is not None:
+        m['mutated'] = A.changed()
+    return c
+
+
+def run_seq(m):
+    """a sequence of lookups sharing argument objects / containers as the steps' `share` maps say"""
+    pool, subs = {}, []
+    for sm in m['steps']:
+        c = run_case(sm, pool)
+        if c is None:
+            return None
+        sm['_impl'], sm['_line'], sm['_clause'] = c.impl, c.line, c.clause
+        subs.append(c)
+    return Case('C03 seq ' + ' ; '.join(c.line[4:] for c in subs), ' ; '.join(c.impl for c in subs),
+                'seq/' + m['seqkind'], meta=m, nontrivial=all(c.nontrivial for c in subs))
+
+
+def epoch_canon(e, with_duration=False):
+    s = 'ok E:%s:%s:%s:%s:%d' % (e.time_unit, '1' if e.data.ndim == 0 else '0', ilist(np.asarray(e.start).reshape(-1)),
+                                 ilist(np.asarray(e.stop).reshape(-1)), int(e.offset))
+    return s + ':' + ilist(np.asarray(e.duration).reshape(-1)) if with_duration else s
+
+
+def _run_case(m, A):
     t = ts()
     op, kind = m['op'], m['kind']
-    if op == 'epochs':
+    if op == 'epochs_getitem':
         def f():
-            e = build_epoch(m['e'])
-            return 'ok E:%s:%s:%s:%s:%d' % (e.time_unit, '1' if e.data.ndim == 0 else '0', ilist(np.asarray(e.start).reshape(-1)),
-                                           ilist(np.asarray(e.stop).reshape(-1)), int(e.offset))
-        return Case('C03 epochs ' + epoch_toks(m['e']), call(f), 'epochs/ctor', meta=m)
+            e = A.get('e', lambda: build_epoch(m['e']))
+            if m.get('read_duration', True):
+                e.duration                      # the one-time property is computed (and cached) before the selection
+            key = {'rev': slice(None, None, -1), 'list': list(m['pos']), 'array': np.array(m['pos'], dtype=np.int64)}[m['keykind']]
+            return epoch_canon(e[key], with_duration=True)
+        return Case('C03 epochs_getitem %s %s' % (epoch_toks(m['e']), ilist(m['pos'])), call(f), 'epochs/getitem', meta=m)
+    if op == 'epochs':
+        return Case('C03 epochs ' + epoch_toks(m['e']), call(lambda: epoch_canon(A.get('e', lambda: build_epoch(m['e'])))), 'epochs/ctor', meta=m)
     # ---- container
     if kind in ('uaxis', 'series'):
         ax = m['axis']
-        obj = build_axis(ax) if kind == 'uaxis' else build_series(ax, m['data'])
+        obj = A.get('obj', lambda: build_axis(ax) if kind == 'uaxis' else build_series(ax, m['data']))
         if obj is None:
             return None
         axobj = obj if kind == 'uaxis' else obj.time
@@ -448,14 +563,14 @@ def run_case(m):
         m['dur'] = int(axobj.duration)
         n = ax['n']
         nt = n >= 2
-        dsuffix = '/duration-only' if ax['ctor'] == 'duration' else ''
+        dsuffix = '/duration-only' if ax['ctor'] == 'duration' else ('/reversed' if ax['dt'] < 0 else '')
     elif kind == 'tarray':
-        obj = mk_T(m['t']['unit'], False, m['t']['ps'])
+        obj = A.get('obj', lambda: mk_T(m['t']['unit'], False, m['t']['ps']))
         otok = tarr_tok(m['t'])
         n = len(m['t']['ps'])
         nt, dsuffix = n >= 2, ''
     else:
-        obj = t.Events(mk_T(m['t']['unit'], False, m['t']['ps']), **{'k%d' % i: np.array(v, dtype=np.int64) for i, v in enumerate(m['vals'])})
+        obj = A.get('obj', lambda: t.Events(mk_T(m['t']['unit'], False, m['t']['ps']), **{'k%d' % i: np.array(v, dtype=np.int64) for i, v in enumerate(m['vals'])}))
         otok = tarr_tok(m['t']) + ' D:%d:%d:%s' % (len(m['vals']), len(m['t']['ps']), ilist([x for v in m['vals'] for x in v]))
         n = len(m['t']['ps'])
         nt, dsuffix = n >= 2, ''
@@ -470,7 +585,7 @@ def run_case(m):
         return 's' if e.data.ndim == 0 else str(len(e))
     if op == 'index_at_bool':
         def f():
-            r = obj.index_at(rep_build(m['q']), boolean=True)
+            r = obj.index_at(A.get('q', lambda: rep_build(m['q'])), boolean=True)
             if np.asarray(r).dtype != bool:
                 return 'dtype:%s' % np.asarray(r).dtype
             return 'ok B:' + (','.join('1' if v else '0' for v in r) if len(r) else '-')
@@ -478,44 +593,44 @@ def run_case(m):
     if op in ('index_at', 'index_at_cur'):
         q = m['q']
         if kind == 'uaxis':
-            impl = call(lambda: canon_idx(obj.index_at(rep_build(q))))
+            impl = call(lambda: canon_idx(obj.index_at(A.get('q', lambda: rep_build(m['q'])))))
             return Case('C03 %s uaxis %s %s' % (op, otok, rep_tok(q)), impl,
                         'uniform/index_at' + dsuffix + ('/current-model' if op.endswith('cur') else ''),
                         cmp=cmp_cur(m) if op.endswith('cur') else None, meta=m, nontrivial=nt)
-        kw = {} if m['tol'] is None else {'tol': rep_build(m['tol'])}
-        impl = call(lambda: canon_idx(obj.index_at(rep_build(q), mode=m['mode'], **kw)))
+        kw = {} if m['tol'] is None else {'tol': A.get('tol', lambda: rep_build(m['tol']))}
+        impl = call(lambda: canon_idx(obj.index_at(A.get('q', lambda: rep_build(m['q'])), mode=m['mode'], **kw)))
         return Case('C03 index_at tarray %s %s %s %s' % (otok, m['mode'], rep_tok(q), '_' if m['tol'] is None else rep_tok(m['tol'])),
                     impl, 'tarray/index_at/' + m['mode'], meta=m, nontrivial=nt)
     if op in ('slice_during', 'slice_during_cur'):
-        impl = call(lambda: canon_slice(obj.slice_during(build_epoch(m['e'])), n))
+        impl = call(lambda: canon_slice(obj.slice_during(A.get('e', lambda: build_epoch(m['e']))), n))
         cl = ('uniform' if kind == 'uaxis' else 'tarray') + '/slice_during' + dsuffix
         return Case('C03 %s %s %s %s' % (op, kind, otok, epoch_toks(m['e'])), impl, cl + ('/current-model' if op.endswith('cur') else ''),
                     cmp=cmp_cur(m) if op.endswith('cur') else None, meta=m, nontrivial=nt)
     if op == 'at':
         q = m['q']
         if kind == 'uaxis':
-            impl = call(lambda: canon_T(obj.at(rep_build(q))))
+            impl = call(lambda: canon_T(obj.at(A.get('q', lambda: rep_build(m['q'])))))
             return Case('C03 at uaxis %s %s' % (otok, rep_tok(q)), impl, 'uniform/at', meta=m, nontrivial=nt)
         if kind == 'tarray':
-            kw = {} if m['tol'] is None else {'tol': rep_build(m['tol'])}
-            impl = call(lambda: canon_T(obj.at(rep_build(q), **kw)))
+            kw = {} if m['tol'] is None else {'tol': A.get('tol', lambda: rep_build(m['tol']))}
+            impl = call(lambda: canon_T(obj.at(A.get('q', lambda: rep_build(m['q'])), **kw)))
             return Case('C03 at tarray %s %s %s' % (otok, rep_tok(q), '_' if m['tol'] is None else rep_tok(m['tol'])), impl, 'tarray/at', meta=m, nontrivial=nt)
         sc = rep_actual(q, ax['unit'])[1]
 
         def f():
-            r = np.asarray(obj.at(rep_build(q)))
+            r = np.asarray(obj.at(A.get('q', lambda: rep_build(m['q']))))
             m['impl_shape'] = list(r.shape)
             return 'ok ' + canon_data(r, 's', 's' if sc else r.shape[-1])
         return Case('C03 at series %s %s' % (otok, rep_tok(q)), call(f), 'series/at', meta=m, nontrivial=nt)
     if op == 'during':
         if kind == 'series':
             def f():
-                e = build_epoch(m['e'])
+                e = A.get('e', lambda: build_epoch(m['e']))
                 return series_out(obj.during(e), ne_of(e))
             arr = epoch_actual(m['e'])
             cl = 'series/during' + ('/array-epochs' if arr[0] == 'ok' and not arr[3] else '')
             return Case('C03 during series %s %s' % (otok, epoch_toks(m['e'])), call(f), cl, meta=m, nontrivial=nt)
-        impl = call(lambda: canon_T(obj.during(build_epoch(m['e']))))
+        impl = call(lambda: canon_T(obj.during(A.get('e', lambda: build_epoch(m['e'])))))
         return Case('C03 during %s %s %s' % (kind, otok, epoch_toks(m['e'])), impl, ('uniform' if kind == 'uaxis' else 'tarray') + '/during', meta=m, nontrivial=nt)
     if op == 'getitem':
         kk = m['key']
@@ -523,13 +638,13 @@ def run_case(m):
         if kk == 'int':
             key, ktok, sub = int(m['k']), 'int %d' % m['k'], 'int'
         elif kk == 'q':
-            key, ktok = rep_build(m['q']), 'q ' + rep_tok(m['q'])
+            key, ktok = A.get('q', lambda: rep_build(m['q'])), 'q ' + rep_tok(m['q'])
             sub = 'float' if m['q']['k'] == 'pyfloat' else 'time'
         else:
             key, ktok, sub = None, 'ep ' + epoch_toks(m['e']), 'epoch'
 
         def f():
-            k = build_epoch(m['e']) if kk == 'ep' else key
+            k = A.get('e', lambda: build_epoch(m['e'])) if kk == 'ep' else key
             r = obj[k]
             if kind == 'events':
                 return canon_events(r)
@@ -562,6 +677,12 @@ def cmp_cur(m):
 def expectation(m):
     """(expected canonical string, extra) for the operation described by m, by brute force"""
     op, kind = m['op'].replace('_cur', ''), m['kind']
+    if op == 'epochs_getitem':
+        r = epoch_actual(m['e'])
+        if r[0] == 'err':
+            return 'err ' + r[1], None
+        st, sp = [r[1][i] for i in m['pos']], [r[2][i] for i in m['pos']]
+        return 'ok E:%s:0:%s:%s:%d:%s' % (r[5], ilist(st), ilist(sp), r[4], ilist([b - a for a, b in zip(st, sp)])), None
     if op == 'epochs':
         r = epoch_actual(m['e'])
         if r[0] == 'err':
@@ -597,7 +718,7 @@ def expectation(m):
         st, idx = exp_uniform_index(ax, q, sc)
         if idx is None:
             return st, None
-        return 'ok B:' + ','.join('1' if any(times[i] <= t < times[i] + ax['dt'] for t in q) else '0' for i in range(n)), None
+        return 'ok B:' + ','.join('1' if any(in_bin(ax, i, t) for t in q) else '0' for i in range(n)), None
     if op == 'index_at':
         if kind == 'uaxis':
             q, sc = rep_actual(m['q'], unit)
@@ -678,10 +799,40 @@ def sel_times(canon, times):
         return None
 
 
+def clean_step(sm):
+    import json
+    d = json.loads(json.dumps({k: v for k, v in sm.items() if k not in ('share', 'mutated', 'impl_shape', 'dur') and not k.startswith('_')}))
+    return d
+
+
+def check_seq(c):
+    m = c.meta
+    for i, sm in enumerate(m['steps']):
+        f = check_case(Case(sm['_line'], sm['_impl'], sm['_clause'], meta=sm))
+        if f is None:
+            continue
+        key = f.key
+        if i > 0 and not key.endswith('-mutated'):
+            # does the same lookup with FRESH equal arguments on a fresh container satisfy the property?
+            fresh = run_case(clean_step(sm))
+            if fresh is not None and check_case(fresh) is None:
+                key = '%s/%s' % (sm['_clause'], 'second-use-differs' if m['seqkind'] == 'same-twice' else 'reused-argument-differs')
+        return Failure(key, 'step %d of a sequence sharing %s: %s' % (i + 1, sorted((sm.get('share') or {}).keys()), f.what), {'meta': m}, case=c)
+    return None
+
+
 def check_case(c):
     m = c.meta
     if not m:
         return None
+    if m['op'] == 'seq':
+        return check_seq(c)
+    mut = m.get('mutated') or []
+    if mut:
+        sym = 'container-mutated' if 'obj' in mut else 'argument-mutated'
+        return Failure('%s/%s' % (c.clause.replace('/current-model', ''), sym),
+                       '%s: the lookup changed its %s (%s); arguments and containers must be bit-for-bit unchanged and reusable  [op: %s] impl=%s'
+                       % (c.clause, 'container' if 'obj' in mut else 'argument object(s)', ','.join(mut), c.line[:240], c.impl[:120]), {'meta': m}, case=c)
     e = expectation(m)
     if e is None:
         return None
@@ -697,6 +848,8 @@ def check_case(c):
             return fail('shape', 'selected data has shape %s, want %s' % (m['impl_shape'], extra['shape']))
         return None
     op, kind = m['op'].replace('_cur', ''), m['kind']
+    if op == 'epochs_getitem' and got.startswith('ok E:') and got.rsplit(':', 1)[0] == want.rsplit(':', 1)[0]:
+        return fail('duration-stale', 'start/stop are those of the selected rows but .duration is not stop - start of the selection')
     # lookups that may legitimately name another position holding the same extreme value
     if op == 'index_at' and kind == 'tarray' and m['mode'] in ('before', 'after') and got.startswith('ok i:') and extra:
         if int(got[5:]) in extra:
@@ -707,7 +860,7 @@ def check_case(c):
         r = epoch_actual(m['e'])
         ax = m['axis']
         lo, hi = ax['t0'], ax['t0'] + m.get('dur', ax['n'] * ax['dt'])
-        if r[0] == 'ok' and any(not (lo <= t < hi) for t in list(r[1]) + list(r[2])):
+        if ax['dt'] > 0 and r[0] == 'ok' and any(not (lo <= t < hi) for t in list(r[1]) + list(r[2])):
             return fail('raises-epoch-outside-axis', 'epoch [%s, %s) starts before the axis or ends at/after its end [%d, %d): ValueError instead of clipping'
                         % (r[1], r[2], lo, hi))
     if uses_epoch and kind in ('tarray', 'events') and want.startswith('ok') and got.startswith('ok'):
@@ -722,7 +875,7 @@ def check_case(c):
         ax = m['axis']
         q, _ = rep_actual(m['q'], ax['unit']) if 'q' in m and m.get('key', 'q') == 'q' else ([], True)
         last = ax['t0'] + (ax['n'] - 1) * ax['dt']
-        if q and all(ax['t0'] <= t < last + ax['dt'] for t in q) and any(t >= ax['t0'] + m.get('dur', 0) for t in q):
+        if ax['dt'] > 0 and q and all(ax['t0'] <= t < last + ax['dt'] for t in q) and any(t >= ax['t0'] + m.get('dur', 0) for t in q):
             return fail('refuses-inside-last-bin', 'instant inside the last bin refused: reported duration %d ps < n*dt = %d ps' % (m.get('dur', 0), ax['n'] * ax['dt']))
         return fail('refuses-inside', 'instant inside the covered range refused')
     if got.startswith('err') and want.startswith('ok'):
@@ -738,21 +891,25 @@ def check_case(c):
 def gen_uquery(rng, ax, array=False):
     t0, dt, n, g = ax['t0'], ax['dt'], ax['n'], ax['g']
     end = t0 + n * dt
+    ad = abs(dt)
+    sg = 1 if dt > 0 else -1
+    # the covered instants: [t0, end) on a forward axis, (end, t0] on a reversed one
+    lo, hi = (t0, end - 1) if dt > 0 else (end + 1, t0)
 
     def one(inside=False):
         c = rng.random()
         i = rng.randrange(n)
         if c < 0.25:
             return t0 + i * dt
-        if c < 0.5:
-            return t0 + i * dt + rng.choice([1, dt - 1, dt // 2, rng.randint(0, dt - 1), (dt // g // 2) * g])
-        if c < 0.6:
-            return t0 + i * dt + dt * rng.choice([0, 1]) - rng.choice([0, 1])
+        if c < 0.5:     # inside the bin of sample i (the bin extends in the direction of dt)
+            return t0 + i * dt + sg * rng.choice([1, ad - 1, ad // 2, rng.randint(0, ad - 1), (ad // g // 2) * g])
+        if c < 0.6:     # bin edges +- 1 ps
+            return t0 + i * dt + dt * rng.choice([0, 1]) - rng.choice([0, 1, -1])
         if c < 0.7 or inside:
-            return rng.randint(t0, end - 1)
+            return rng.randint(lo, hi)
         if c < 0.85:
-            return rng.choice([t0 - 1, t0 - dt, t0 - rng.randint(1, 3 * dt), t0 - g])
-        return rng.choice([end, end + 1, end + dt, end + rng.randint(0, 3 * dt)])
+            return rng.choice([lo - 1, lo - ad, lo - rng.randint(1, 3 * ad), lo - g])
+        return rng.choice([hi + 1, hi + 2, hi + ad, hi + 1 + rng.randint(0, 3 * ad)])
     if not array:
         return gen_rep(rng, one(), ax['unit'])
     k = rng.randint(1, 5)
@@ -763,23 +920,25 @@ def gen_uquery(rng, ax, array=False):
 def gen_uepoch(rng, ax, array=False):
     t0, dt, n, g = ax['t0'], ax['dt'], ax['n'], ax['g']
     times = [t0 + i * dt for i in range(n)]
+    ad = abs(dt)
+    lo, hi = (t0, t0 + n * dt) if dt > 0 else (t0 + n * dt + 1, t0 + 1)     # [lo, hi) holds every sample
     off = rng.choice([0, 0, g, -g, dt, rng.randint(-5, 5) * g])
     if not array:
-        a, b = gen_span(rng, t0, t0 + n * dt, max(g, 2), times)
+        a, b = gen_span(rng, lo, hi, max(g, 2), times)
         return gen_epoch_args(rng, a, b, off, rng.choice([ax['unit'], ax['unit'], None, rng.choice(UNITS)]))
     k = rng.randint(1, 4)
     c = rng.random()
     if c < 0.6:         # equal durations, starts aligned with the grid phase: equal counts
-        w = rng.randint(0, n) * dt + rng.choice([0, 0, 1, dt // 2])
-        ph = rng.choice([0, 0, 1, dt // 2, -1])
+        w = rng.randint(0, n) * ad + rng.choice([0, 0, 1, ad // 2])
+        ph = rng.choice([0, 0, 1, ad // 2, -1])
         starts = [t0 + rng.randint(-1, n) * dt + ph for _ in range(k)]
         stops = [s + w for s in starts]
     elif c < 0.8:       # equal durations, arbitrary phases (blocks may be ragged)
-        w = rng.randint(0, n * dt)
-        starts = [rng.randint(t0 - dt, t0 + n * dt) for _ in range(k)]
+        w = rng.randint(0, n * ad)
+        starts = [rng.randint(lo - ad, hi) for _ in range(k)]
         stops = [s + w for s in starts]
     else:               # unequal durations
-        sp = [gen_span(rng, t0, t0 + n * dt, max(g, 2), times) for _ in range(k)]
+        sp = [gen_span(rng, lo, hi, max(g, 2), times) for _ in range(k)]
         starts, stops = [s[0] for s in sp], [s[1] for s in sp]
     return gen_epoch_args(rng, starts, stops, off, rng.choice([ax['unit'], ax['unit'], None]))
 
@@ -828,6 +987,121 @@ def gen_bad_epoch(rng):
     return e
 
 
+def gen_step(rng, kind, cont):
+    """one random lookup on the described container"""
+    c = rng.random()
+    if kind in ('uaxis', 'series'):
+        ax = cont['axis']
+        if kind == 'uaxis':
+            if c < 0.15:
+                return dict(cont, op='index_at', kind=kind, q=gen_uquery(rng, ax, array=rng.random() < 0.5))
+            if c < 0.3:
+                return dict(cont, op='at', kind=kind, q=gen_uquery(rng, ax, array=rng.random() < 0.5))
+            if c < 0.55:
+                return dict(cont, op='slice_during', kind=kind, e=gen_uepoch(rng, ax))
+            if c < 0.75:
+                return dict(cont, op='during', kind=kind, e=gen_uepoch(rng, ax))
+            if c < 0.85:
+                return dict(cont, op='getitem', kind=kind, key='q', q=gen_rep(rng, ax['t0'] + rng.randrange(ax['n']) * ax['dt'], ax['unit'], kinds=('time', 'pyfloat')))
+            return dict(cont, op='getitem', kind=kind, key='ep', e=gen_uepoch(rng, ax))
+        if c < 0.3:
+            return dict(cont, op='at', kind=kind, q=gen_uquery(rng, ax, array=rng.random() < 0.5))
+        if c < 0.7:
+            return dict(cont, op='during', kind=kind, e=gen_uepoch(rng, ax, array=rng.random() < 0.5))
+        if c < 0.8:
+            arr = rng.random() < 0.5
+            return dict(cont, op='getitem', kind=kind, key='q', q={'k': 'time', 'unit': rng.choice(UNITS), 'sc': not arr,
+                        'ps': [ax['t0'] + rng.randrange(ax['n']) * ax['dt'] + rng.choice([0, 1]) for _ in range(2 if arr else 1)]})
+        return dict(cont, op='getitem', kind=kind, key='ep', e=gen_uepoch(rng, ax, array=rng.random() < 0.4))
+    t = cont['t']
+    if kind == 'tarray':
+        if c < 0.25:
+            mode = rng.choice(['closest', 'before', 'after'])
+            return dict(cont, op='index_at', kind=kind, mode=mode, q=gen_tquery(rng, t, array=rng.random() < 0.5), tol=gen_tol(rng, t) if mode == 'closest' else None)
+        if c < 0.4:
+            return dict(cont, op='at', kind=kind, q=gen_tquery(rng, t, array=rng.random() < 0.4), tol=gen_tol(rng, t))
+        if c < 0.6:
+            return dict(cont, op='slice_during', kind=kind, e=gen_tepoch(rng, t))
+        if c < 0.75:
+            return dict(cont, op='during', kind=kind, e=gen_tepoch(rng, t))
+        if c < 0.85:
+            return dict(cont, op='getitem', kind=kind, key='q', q={'k': 'pyfloat', 'v': float(Fr(rng.choice(t['ps']) + rng.choice([0, 0, 1]), FACTOR[t['unit']]))})
+        return dict(cont, op='getitem', kind=kind, key='ep', e=gen_tepoch(rng, t))
+    if c < 0.4:
+        return dict(cont, op='getitem', kind=kind, key='q', q={'k': 'pyfloat', 'v': float(Fr(rng.choice(t['ps']) + rng.choice([0, 0, 1]), FACTOR[t['unit']]))})
+    return dict(cont, op='getitem', kind=kind, key='ep', e=gen_tepoch(rng, t))
+
+
+def transfer(step, kind2, cont2):
+    """the lookup of `step` (same argument descriptions) on another container, or None when that makes no sense"""
+    k1, op = step['kind'], step['op']
+    args = {k: step[k] for k in ('q', 'e', 'tol', 'mode', 'key') if k in step}
+    if k1 == kind2:
+        return dict(cont2, op=op, kind=kind2, **args)
+    if (k1, kind2) in (('uaxis', 'series'), ('series', 'uaxis')):
+        if 'e' in args:
+            args.pop('key', None)
+            return dict(cont2, op='during', kind=kind2, e=args['e'])
+        if 'q' in args:
+            return dict(cont2, op='at', kind=kind2, q=args['q'])
+        return None
+    if (k1, kind2) == ('tarray', 'events'):
+        if 'e' in args:
+            return dict(cont2, op='getitem', kind=kind2, key='ep', e=args['e'])
+        if op == 'getitem' and args.get('key') == 'q':
+            return dict(cont2, op='getitem', kind=kind2, key='q', q=args['q'])
+    return None
+
+
+def gen_seq(rng, nmax):
+    """sequences: the same lookup twice with the same objects; one argument object on two containers"""
+    kind = rng.choice(['uaxis', 'uaxis', 'series', 'series', 'tarray', 'events'])
+
+    def cont_of(kind, like=None):
+        if kind in ('uaxis', 'series'):
+            ax = dict(like['axis']) if like else gen_axis(rng, nmax)
+            if like and rng.random() < 0.7:     # a neighbouring axis: shifted start, other length
+                ax['t0'] += rng.choice([-2, -1, 1, 2, 3]) * rng.choice([ax['dt'], ax['g']])
+                ax['n'] = max(1, ax['n'] + rng.randint(-3, 3))
+            return {'axis': ax} if kind == 'uaxis' else {'axis': ax, 'data': gen_data(rng, ax['n'])}
+        if like:
+            ps = sorted(p + rng.choice([0, 0, like['t']['g'], -like['t']['g']]) for p in like['t']['ps'])
+            t = dict(like['t'], ps=ps)       # same length: an array query of the first container stays admissible
+        else:
+            t = gen_tarray(rng, min(nmax, 20), sorted_=True)
+        return {'t': t} if kind == 'tarray' else {'t': t, 'vals': [[rng.randint(-99, 99) for _ in t['ps']] for _ in range(rng.randint(1, 2))]}
+    c1 = cont_of(kind)
+    s1 = gen_step(rng, kind, c1)
+    names = [k for k in ('q', 'e', 'tol') if s1.get(k) is not None]
+    if rng.random() < 0.45:
+        sh = dict({k: k.upper() for k in names}, obj='X')
+        n_rep = rng.choice([2, 2, 3])
+        return {'op': 'seq', 'kind': 'seq', 'seqkind': 'same-twice', 'steps': [dict(clean_step(s1), share=sh) for _ in range(n_rep)]}
+    kind2 = {'uaxis': rng.choice(['uaxis', 'series']), 'series': rng.choice(['series', 'uaxis']),
+             'tarray': rng.choice(['tarray', 'events']), 'events': 'events'}[kind]
+    s2 = transfer(s1, kind2, cont_of(kind2, like=c1))
+    if s2 is None:
+        s2 = transfer(s1, kind, cont_of(kind, like=c1))
+    sh = {k: k.upper() for k in names}
+    steps = [dict(clean_step(s1), share=sh), dict(clean_step(s2), share=sh)]
+    if rng.random() < 0.3:      # and back on the first container, same objects
+        steps.append(dict(clean_step(s1), share=sh))
+    return {'op': 'seq', 'kind': 'seq', 'seqkind': 'argument-on-two-containers', 'steps': steps}
+
+
+def gen_epochs_getitem(rng):
+    n = rng.randint(2, 5)
+    u = rng.choice(UNITS)
+    g = FACTOR[u] >> rng.randint(0, min(V2[u], 3))
+    top = max(1, min(20, LIM // g // 64))
+    starts = [rng.randint(-top, top) * g for _ in range(n)]
+    stops = [a + rng.randint(0, 9) * g for a in starts]        # unequal durations
+    e = gen_epoch_args(rng, starts, stops, rng.choice([0, g, -g]), u)
+    kk = rng.choice(['rev', 'list', 'list', 'array'])
+    pos = list(range(n - 1, -1, -1)) if kk == 'rev' else [rng.randrange(n) for _ in range(rng.randint(1, 5))]
+    return {'op': 'epochs_getitem', 'kind': 'epochs', 'e': e, 'keykind': kk, 'pos': pos, 'read_duration': rng.random() < 0.8}
+
+
 def cases(rng, tier, seed):
     scale = {'quick': 1, 'thorough': 30}[tier]
     nmax = 50
@@ -842,7 +1116,7 @@ def cases(rng, tier, seed):
             add({'op': 'index_at_bool', 'kind': 'uaxis', 'axis': ax, 'q': gen_uquery(rng, ax, array=rng.random() < 0.6)})
         e = gen_uepoch(rng, ax)
         add({'op': 'slice_during', 'kind': 'uaxis', 'axis': ax, 'e': e})
-        if rng.random() < 0.4:
+        if rng.random() < 0.4 and ax['dt'] > 0:
             add({'op': 'slice_during_cur', 'kind': 'uaxis', 'axis': ax, 'e': e})
         c = rng.random()
         if c < 0.3:
@@ -923,6 +1197,10 @@ def cases(rng, tier, seed):
         else:
             ax = gen_axis(rng, 10)
             add({'op': 'epochs', 'kind': 'epochs', 'e': gen_uepoch(rng, ax, array=rng.random() < 0.5)})
+    for _ in range(320 * scale):                      # arguments / containers unchanged and reusable
+        add(gen_seq(rng, nmax))
+    for _ in range(60 * scale):                       # Epochs[key] with reordering / repeating keys
+        add(gen_epochs_getitem(rng))
     out, skipped = [], 0
     for m in CORPUS + metas:
         c = run_case(dict(m))
